@@ -76,6 +76,11 @@ CHECKS = {
          "Held on 960 (quick) / 12000 (thorough) fsck runs over {no argument, commit, range} x {default, --objects, --pointers} x {dry-run, real}: exit status, named oids/paths, byte-identical move to lfs/bad, intact objects untouched (bytes and inode), dry-run changes nothing; 3 recorded known findings attributed by trigger.",
          "Range semantics use the weakest reading; oids named only by non-canonical pointer text, objects reached through both excluded and non-excluded paths, and index-only pointer problems are not judged.",
          "DESIGN.md §5 C13"),
+ "C10": ("fault_enumeration",
+         "runtime monitor: six in-driver listeners (two origins on 127.0.0.1 as http and https, one on 127.0.0.2, `localhost` aliases) with scripted redirect graphs and 401 sequences; every credential any source can supply (helper, netrc, URL userinfo, askpass, cache, extraheader, ssh authenticate, batch-issued action headers) encodes the origin it was issued for; per-request equality oracle, https->http refusal, constant hop cut-off; in-process lfsapi.Client/tq volume plus the real binary",
+         "Held on 314 (quick) / 8064 (thorough) cases: ~2500 received requests, ~2100 authenticated ones checked per quick run over redirect depth 0-4 and loops, statuses 301/302/303/307/308, nine Location forms, six hop relations, nine credential sources; observed cut-off = 3 requests per walk, identical on every loop.",
+         "netrc credentials are keyed by host name only (format has no scheme/port); multistage helpers are injected in-process (git 2.39.5 drops authtype/state); suffix-related host names cannot be built without DNS.",
+         "DESIGN.md §5 C10"),
 }
 
 NOT_YET = {}
